@@ -152,6 +152,11 @@ def chunked(name, ty, items, size=400):
 # ------------------------------------------------------------------ parsing the engine's output
 KEYONLY_SKIPPED = [0]
 LIMIT_LINES = []   # V lines of the last parse (limit verdicts on directed near-limit scripts)
+DEPTH_LINES = []   # H lines: recursion-depth checks on n: chains
+KEYONLY = []       # D blocks of pkh / wpkh / sh(wpkh) descriptors (no miniscript; constant formulas)
+KEYONLY_REJECTED = []   # K lines: key-only constructors that refused the key
+RAWPKH = []        # Q lines: decoded scripts with a raw key hash, satisfied through a resolving satisfier
+KOKIND = {"pkh": "KPkh", "wpkh": "KWpkh", "shwpkh": "KShWpkh"}
 VERDICT = {"ok": 0, "size": 1, "witems": 2, "ops": 3, "stack": 4}
 
 
@@ -159,6 +164,7 @@ def parse(text):
     R, T, D, X, Y = [], [], [], [], []
     V = LIMIT_LINES
     del V[:]
+    del DEPTH_LINES[:], KEYONLY[:], KEYONLY_REJECTED[:], RAWPKH[:]
     cur = None
     for line in text.splitlines():
         t = line.split()
@@ -181,9 +187,36 @@ def parse(text):
                    "leaves": [], "S": [], "P": []}
             # key-only descriptors (pkh / wpkh / sh(wpkh)) carry no miniscript: outside the ExtData model
             if cur["kind"] in ("pkh", "wpkh", "shwpkh"):
-                KEYONLY_SKIPPED[0] += 1
+                KEYONLY.append(cur)
             else:
                 D.append(cur)
+        elif t[0] == "W":
+            f = dict(x.split("=") for x in t[1:])
+            cur["msw"], cur["unc"] = f["msw"], f["unc"] == "1"
+        elif t[0] == "K":
+            KEYONLY_REJECTED.append({"kind": t[2], "unc": t[3] == "unc=1"})
+        elif t[0] == "H":
+            rec = {"level": int(t[2]), "status": t[3].split(":")[0], "cls": t[3], "height": None, "lims": []}
+            for x in t[4:]:
+                k, v = x.split("=")
+                if k == "height":
+                    rec["height"] = int(v)
+                else:
+                    l, r = v.split(":")
+                    rec["lims"].append((int(l), r))
+            DEPTH_LINES.append(rec)
+        elif t[0] == "Q":
+            p = [x.strip() for x in line.split("|")]
+            h = p[0].split()
+            rec = {"ctx": h[1], "shape": h[2], "key": h[3].split("=")[1], "status": h[4] if len(h) > 4 else "DECODED"}
+            if len(p) > 3:
+                f = dict(x.split("=") for x in p[3].split())
+                rec.update(dump=p[1], ext=p[2].split(), raw=int(f["raw"]), ss=int(f["ss"]), enc=int(f["enc"]), mss=f["mss"], mse=f["mse"],
+                           sat=f["status"], n=int(f.get("n", 0)), wsize=int(f.get("wsize", 0)), ssig=int(f.get("ssig", 0)))
+                # the decoded object's figures are tied like every other script's
+                T.append({"ctx": rec["ctx"], "origin": "rawpkh", "dump": rec["dump"], "panic": False, "ext": rec["ext"],
+                          "ss": rec["ss"], "enc": rec["enc"], "mss": rec["mss"], "mse": rec["mse"], "flags": {}})
+            RAWPKH.append(rec)
         elif t[0] == "L":
             p = [x.strip() for x in line.split("|")]
             h = p[0].split()
@@ -256,6 +289,19 @@ def gen_file(R, T, D):
     s.append(chunked("plan_cases", "(plan_kind * list N * (N * N * N))", pl))
     vl = ["mkV %s %s %d %s" % (CTX[v["ctx"]], ms_coq(v["dump"].split()), VERDICT.get(v["verdict"], 9), b(v["within"] == "1")) for v in LIMIT_LINES]
     s.append(chunked("limit_cases", "vcase", vl, 8))
+    hl = []
+    for h in DEPTH_LINES:
+        acc = "(Some %d)" % h["height"] if h["status"] == "accepted" and h["height"] is not None else "None"
+        hl.append("(%d, %s, [%s])" % (h["level"], acc, ";".join("(%d, %s)" % (l, b(r == "ok")) for l, r in h["lims"])))
+    s.append(chunked("depth_cases", "hcase", hl, 8))
+    kseen, kl = set(), []
+    for d in KEYONLY:
+        key = (d["kind"], d.get("unc", False), d["mw"], d.get("msw"))
+        if key in kseen or not str(d["mw"]).isdigit() or not str(d.get("msw")).isdigit():
+            continue
+        kseen.add(key)
+        kl.append("(%s, %s, %s, %s)" % (KOKIND[d["kind"]], b(d.get("unc", False)), d["mw"], d["msw"]))
+    s.append(chunked("keyonly_cases", "kcase", kl))
     return "".join(s), rules, len(tl), len(dl), len(pl)
 
 
@@ -490,6 +536,7 @@ def run(rep, tier, seed, replay):
     tie_ok = c2.returncode == 0
     cov = re.search(r"=\s*\((\d+),\s*(\d+),\s*(\d+)\)", c2.stdout or "")
     ops_cov = re.search(r"=\s*\((\d+),\s*(\d+)\)\s*:", c2.stdout or "")
+    tl_cov = re.findall(r"=\s*\((\d+),\s*(\d+)\)\s*:", c2.stdout or "")
     depth_cov = re.search(r"=\s*\((\d+),\s*(\d+),\s*(\d+),\s*(\d+)\)", c2.stdout or "")
     tie_breaks = []
     if not tie_ok:
@@ -517,6 +564,12 @@ def run(rep, tier, seed, replay):
                 tie_breaks.append(("tie:desc-weight", "max_weight_to_satisfy differs from the model's formula on %d descriptor(s)" % len(desc_idx), {"differing": len(desc_idx), "first_index": desc_idx[0]}))
             if plan_bad:
                 tie_breaks.append(("tie:plan", "Plan::witness_size/scriptsig_size/satisfaction_weight differ from the model's accounting on %d template(s)" % plan_bad, {"differing": plan_bad}))
+            if len(blocks) > 5 and re.search(r"\(\d+,\s*(?:Some|None)", blocks[5]):
+                tie_breaks.append(("tie:depth-check", "from_ast / validate_non_top_level depth verdicts on the n: chains differ from the model (built_by_from_ast / validate_depth_ok): %s" % " ".join(blocks[5].split())[:300],
+                                   {"differing": blocks[5].strip()[:400], "implementation": [h["cls"] for h in DEPTH_LINES]}))
+            if len(blocks) > 6 and re.search(r"K(?:Pkh|Wpkh|ShWpkh)", blocks[6]):
+                tie_breaks.append(("tie:keyonly-weight", "max_weight_to_satisfy / max_satisfaction_weight of pkh / wpkh / sh(wpkh) differ from the model's constants (model says: %s)" % " ".join(blocks[6].split())[:300],
+                                   {"model": blocks[6].strip()[:400]}))
             if lim_idx:
                 v0 = LIMIT_LINES[lim_idx[0]]
                 tie_breaks.append(("tie:limit-verdict", "validate_non_top_level (SANE limits) / within_resource_limits differ from the model's sd_wcount + sd_estack verdict on %d near-limit script(s), e.g. [%s] verdict=%s within=%s on %s" % (len(lim_idx), v0["ctx"], v0["verdict"], v0["within"], v0["dump"][:300]),
@@ -543,6 +596,75 @@ def run(rep, tier, seed, replay):
         elif (v["verdict"] == "ok") != (v["within"] == "1"):
             direct.append(("limits:verdicts-disagree", "validate_non_top_level(SANE) says %s, within_resource_limits says %s on [%s] %s" % (v["verdict"], v["within"], v["ctx"], v["dump"][:200]),
                            dict(v, ms=v["dump"], failed_clause="parse-time limit validation and within_resource_limits agree on the stack / witness-item limits")))
+    # ---- recursion-depth checks (H lines), judged without the model: height = level + 1, limit 402
+    st["depth-chains/compared"] = len(DEPTH_LINES)
+    if not any(h["status"] == "rejected" for h in DEPTH_LINES):
+        direct.append(("depth:never-rejected", "from_ast accepted every n: chain up to level 410 (height 411 > MAX_RECURSION_DEPTH 402)",
+                       {"ms": "n: x 410 above c:pk_k(K0)", "failed_clause": "from_ast rejects trees higher than 402"}))
+    for h in DEPTH_LINES:
+        inp = {"ms": "n: x %d above c:pk_k(K0) [tap]" % h["level"], "level": h["level"], "reported": h["cls"], "height": h["height"]}
+        if h["status"] == "accepted" and (h["height"] != h["level"] + 1 or h["height"] > 402):
+            direct.append(("depth:accepted-above-limit", "from_ast accepted a tree of %d wrappers above c:pk_k (height %d) reporting tree_height %s" % (h["level"], h["level"] + 1, h["height"]),
+                           dict(inp, failed_clause="tree_height = height of the AST <= 402 for every accepted tree")))
+        elif h["status"] == "rejected" and (h["level"] + 1 <= 402 or "MaxRecursiveDepthExceeded" not in h["cls"]):
+            direct.append(("depth:rejected-within-limit", "from_ast refused (%s) a tree of height %d" % (h["cls"], h["level"] + 1),
+                           dict(inp, failed_clause="from_ast refuses only trees higher than 402, with MaxRecursiveDepthExceeded")))
+        elif h["status"] not in ("accepted", "rejected"):
+            direct.append(("depth:unexpected", "from_ast on an n: chain of %d wrappers: %s" % (h["level"], h["cls"]), inp))
+        for l, r in h["lims"]:
+            if (r == "ok") != (h["height"] <= l):
+                direct.append(("depth:validate-verdict", "validate_non_top_level(max_recursive_depth=%d) says %s on a tree of height %d" % (l, r, h["height"]),
+                               dict(inp, limit=l, verdict=r, failed_clause="validate rejects exactly trees higher than max_recursive_depth")))
+    # ---- key-only descriptors: the measured weight of the produced satisfaction against both constant figures
+    for k in KEYONLY_REJECTED:
+        if not (k["unc"] and k["kind"] in ("wpkh", "shwpkh")):
+            direct.append(("corpus", "a directed key-only descriptor is refused: %s unc=%s" % (k["kind"], k["unc"]), {"line": str(k), "broken_tie": "ext engine corpus"}))
+    for d in KEYONLY:
+        st["descs/" + d["kind"]] += 1
+        for r in d["S"]:
+            base = {"desc": d["desc"], "kind": d["kind"], "mode": r["mode"], "keymask": r["km"], "premask": r["pm"], "measured_run": r}
+            if r["status"] == "PANIC":
+                direct.append(("panic:satisfy", "get_satisfaction panicked: %s" % d["desc"], base))
+            if r["status"] == "UNPARSED":
+                direct.append(("unparsed", "could not measure the returned satisfaction: %s" % d["desc"], base))
+            if r["status"] != "OK":
+                continue
+            st["sat/ok/%s/%s" % (d["kind"], r["mode"])] += 1
+            st["compared"] += 2
+            mw = int(d["mw"]) if str(d["mw"]).isdigit() else None
+            msw = int(d["msw"]) if str(d.get("msw")).isdigit() else None
+            absw = 4 * (varint(r["ssig_len"]) + r["ssig_len"]) + r["wit_ser"]
+            if mw is None or r["weight"] > mw:
+                direct.append(("undershoot:keyonly:max_weight_to_satisfy", "max_weight_to_satisfy %s < measured %d on %s" % (mw, r["weight"], d["desc"]),
+                               dict(base, figure=mw, measured=r["weight"], failed_clause="measured weight of the satisfaction <= max_weight_to_satisfy")))
+            if msw is None or absw > msw:
+                direct.append(("undershoot:keyonly:max_satisfaction_weight", "max_satisfaction_weight %s < measured %d (scriptSig with prefix x4 + witness) on %s" % (msw, absw, d["desc"]),
+                               dict(base, figure=msw, measured=absw, failed_clause="measured absolute weight <= max_satisfaction_weight")))
+    # ---- raw key hashes: decoded scripts satisfied through a resolving satisfier
+    for q in RAWPKH:
+        inp = {"ctx": q["ctx"], "shape": q["shape"], "key_form": {"c": "compressed", "u": "uncompressed", "x": "x-only"}[q["key"]], "ms": q.get("dump"), "run": {k: v for k, v in q.items() if k != "ext"}}
+        if q["status"] != "DECODED":
+            direct.append(("corpus", "raw key hash case not built: %s %s key=%s %s" % (q["ctx"], q["shape"], q["key"], q["status"]), dict(inp, broken_tie="ext engine corpus")))
+            continue
+        if q["raw"] != 1:
+            direct.append(("rawpkh:not-raw", "decoding did not produce exactly one expr_raw_pkh (%d) for %s" % (q["raw"], q["dump"]), inp))
+        if q["sat"] == "PANIC":
+            direct.append(("panic:satisfy-rawpkh", "satisfy panicked on a decoded script with a resolvable raw key hash: [%s] %s (%s key)" % (q["ctx"], q["dump"], inp["key_form"]), inp))
+            continue
+        if q["sat"] != "OK":
+            direct.append(("rawpkh:unsatisfied", "the satisfier resolves the hash and signs, but satisfy failed: [%s] %s" % (q["ctx"], q["dump"]), inp))
+            continue
+        sat = sat_of(q["ext"])
+        legacy = q["ctx"] in ("legacy", "bare")
+        checks = [("witness element count", q["n"], None if sat is None else sat[1]),
+                  ("scriptSig size", q["ssig"], None if sat is None else sat[2]) if legacy else ("witness size", q["wsize"], None if sat is None else sat[0])]
+        for nm, meas, fig in checks:
+            st["compared"] += 1
+            st["rawpkh/compared"] += 1
+            if fig is None or meas > fig:
+                key = "rawpkh:uncompressed-key-counted-as-34" if q["key"] == "u" else "undershoot:rawpkh:" + nm.split()[0]
+                direct.append((key, "%s: figure %s < measured %d on the decoded script [%s] %s whose raw key hash resolves to an %s key" % (nm, fig, meas, q["ctx"], q["dump"], inp["key_form"]),
+                               dict(inp, figure=fig, measured=meas, quantity=nm, failed_clause="measured <= static figure (%s)" % nm)))
     found_real = False
     attributed = attribute(need_attr)
     for a, comps, masks in attributed:
@@ -643,9 +765,10 @@ def run(rep, tier, seed, replay):
                 samples.append({"desc": d["desc"][:160], "mode": s["mode"], "measured": {k: s[k] for k in ("n_inner", "inner_wsize", "inner_ssig", "weight")},
                                 "figures": d["leaves"][s["leaf"]]["ext"][3], "max_weight_to_satisfy": d["mw"]})
                 break
-    obligations = len(thms) + 4
+    obligations = len(thms) + 6
     rep.coverage.update({
-        "obligations": obligations, "discharged": (len(thms) if ok else 0) + (4 if tie_ok else 0),
+        "obligations": obligations, "discharged": (len(thms) if ok else 0) + (6 if tie_ok else 0),
+        "depth_check_cases": len(DEPTH_LINES), "keyonly_descriptor_blocks": len(KEYONLY), "rawpkh_cases": len(RAWPKH),
         "checker_cmd": "make -C coq; coqc Properties/C09.v; verif-harness ext %d %d %d %d -> Tables/ExtCasesGen.v; coqc Tables/ExtCasesCheck.v; verif-harness sat %d %d | ocaml/driver_ext" % (tuple(args) + (seed, n_tr)),
         "trusted_base": vlib.TRUSTED_BASE_COMMON + [
             "Ms/Sat.v is the model of the satisfier the bounds are proved against (tied to the implementation by the C01 run)",
@@ -659,6 +782,7 @@ def run(rep, tier, seed, replay):
         "theorem_class_coverage": {"scripts": int(cov.group(1)), "ext_safe_as_written": int(cov.group(2)), "ext_safe_pre_fix_rules": int(cov.group(3))} if cov else None,
         "ops_class_coverage": {"non_tap_scripts_with_sat_figure": int(ops_cov.group(1)), "in_ops_covered": int(ops_cov.group(2))} if ops_cov else None,
         "depth_class_coverage": {"well_typed_scripts_with_sat_figure": int(depth_cov.group(1)), "in_depth_covered": int(depth_cov.group(2)), "in_depth_covered_pre_fix_rules": int(depth_cov.group(3))} if depth_cov else None,
+        "timelock_class_coverage": {"scripts": int(tl_cov[-1][0]), "in_tl_total": int(tl_cov[-1][1])} if len(tl_cov) >= 2 else None,
         "comparisons": dict(st), "histogram": dict(hist), "samples": samples,
         "execution_traces": {"summary": tsum, "histogram": thist},
         "tie_checked_in_coq": tie_ok,
